@@ -235,6 +235,8 @@ def show(t, depth=0):
         if t[2] == (((), Fraction(1)),):
             return '[' + n + ']'
         return '[(%s) / (%s)]' % (n, ' + '.join(mono(m, c) for m, c in t[2]))
+    if k == 'star':
+        return '*' + show(t[1], d)
     if k == 'copy':
         return '%scopy(%s)' % ('deep' if t[1] == 'deep' else '', show(t[2], d))
     if k == 'mut':
